@@ -19,6 +19,15 @@ import extract  # noqa
 import config   # noqa
 
 BUILD = os.path.join(VERIF, 'build')
+
+
+def bdir(repo, name):
+    """build directory for `name`, separate per tree under check (so that a check of a scratch
+    copy cannot disturb a concurrent check of /repo)"""
+    r = os.path.abspath(repo)
+    if r == '/repo':
+        return os.path.join(BUILD, name)
+    return os.path.join(BUILD, '%s_%s' % (name, hashlib.sha1(r.encode()).hexdigest()[:8]))
 VERIF_MSGS = (
     'postcondition not satisfied', 'precondition not satisfied',
     'invariant not satisfied at end of loop body', 'loop invariant not satisfied',
@@ -127,7 +136,7 @@ def verify_unit(unit, repo, canary=False):
         r.undecided = 'extractor failure: %r' % (e,)
         return r
     r.info = info
-    gen = os.path.join(BUILD, 'gen')
+    gen = bdir(repo, 'gen')
     os.makedirs(gen, exist_ok=True)
     path = os.path.join(gen, unit + (('_canary' + canary) if canary else '') + '.rs')
     open(path, 'w').write(out.text())
@@ -177,7 +186,7 @@ def verify_unit(unit, repo, canary=False):
         for s in d.get('spans', []):
             fn = s.get('file_name', '')
             ln = s.get('line_start', 0)
-            if 'gen/' in fn and 0 < ln <= len(origin):
+            if ('gen/' in fn or 'gen_' in fn) and 0 < ln <= len(origin):
                 o = dict(origin[ln - 1])
                 o['gen_line'] = ln
                 o['gen_text'] = lines[ln - 1].strip()
@@ -262,7 +271,7 @@ def relevant(f, prop, cfg):
 
 # ----------------------------------------------------------------------------
 def build_replay(repo):
-    d = os.path.join(BUILD, 'replay')
+    d = bdir(repo, 'replay')
     os.makedirs(d, exist_ok=True)
     toml = '''[package]
 name = "replay"
@@ -410,7 +419,7 @@ def main():
                 if rc.undecided:
                     undecided.append('%s (canary run %s): %s' % (u, cp, rc.undecided))
                     continue
-                path = os.path.join(BUILD, 'gen', u + '_canary' + cp + '.rs.map.json')
+                path = os.path.join(bdir(a.repo, 'gen'), u + '_canary' + cp + '.rs.map.json')
                 org = json.load(open(path))['origin']
                 expected = set((o['fn'], o['where']) for o in org if o.get('k') == 'canary')
                 got = set()
@@ -515,7 +524,7 @@ def main():
     origins = []
     infos = []
     for r in results:
-        p = os.path.join(BUILD, 'gen', r.unit + '.rs.map.json')
+        p = os.path.join(bdir(a.repo, 'gen'), r.unit + '.rs.map.json')
         if r.info and os.path.exists(p):
             origins.append(json.load(open(p))['origin'])
             infos.append(r.info)
